@@ -407,13 +407,70 @@ func (cx *c18Ctx) ruleR6() {
 				continue
 			}
 			nSrc++
-			holds := func(v ssa.Value) bool { // v may hold the entry obtained at src
+			// mayHold: v can be the entry obtained at src, ignoring which stores actually execute
+			mayHold := func(v ssa.Value) bool {
 				for _, o := range kit.Origins(v) {
 					if o == src.val {
 						return true
 					}
 				}
 				return false
+			}
+			// A local variable holds the entry only after a store of it has executed. The stores that
+			// can execute depend on the branch conditions, which are evaluated on values that hold the
+			// entry: iterate (definitions found dead under the assignment stop counting).
+			deadDef := map[*ssa.Store]bool{}
+			var holds func(v ssa.Value) bool
+			busy := map[ssa.Value]bool{}
+			holds = func(v ssa.Value) bool {
+				if busy[v] {
+					return false
+				}
+				busy[v] = true
+				defer delete(busy, v)
+				switch x := v.(type) {
+				case *ssa.Phi:
+					for _, e := range x.Edges {
+						if holds(e) {
+							return true
+						}
+					}
+					return false
+				case *ssa.ChangeType:
+					return holds(x.X)
+				case *ssa.UnOp:
+					a, ok := x.X.(*ssa.Alloc)
+					if x.Op != token.MUL || !ok || a.Referrers() == nil {
+						return v == src.val
+					}
+					// stores into the variable: those that carry the entry, and the others (which end it)
+					var defs []*ssa.Store
+					others := map[ssa.Instruction]bool{}
+					for _, ref := range *a.Referrers() {
+						st, ok := ref.(*ssa.Store)
+						if !ok || st.Addr != ssa.Value(a) {
+							continue
+						}
+						if lv, isLoad := st.Val.(*ssa.UnOp); isLoad && lv.X == ssa.Value(a) {
+							continue // x = x
+						}
+						if mayHold(st.Val) && holds(st.Val) {
+							defs = append(defs, st)
+						} else {
+							others[st] = true
+						}
+					}
+					for _, d := range defs {
+						if deadDef[d] {
+							continue
+						}
+						if kit.CanReachAvoiding(d, x, others) {
+							return true
+						}
+					}
+					return false
+				}
+				return v == src.val
 			}
 			// executions in which the variable holds this source: cut phi edges that carry other values,
 			// and stop at stores that overwrite a local holding it
@@ -422,23 +479,23 @@ func (cx *c18Ctx) ruleR6() {
 			kit.Instrs(f, func(in ssa.Instruction) {
 				switch x := in.(type) {
 				case *ssa.Phi:
-					if !holds(x) {
+					if !mayHold(x) {
 						return
 					}
 					for i, e := range x.Edges {
-						if !holds(e) && i < len(x.Block().Preds) {
+						if !mayHold(e) && i < len(x.Block().Preds) {
 							blocked[kit.Edge{From: x.Block().Preds[i], To: x.Block()}] = true
 						}
 					}
 				case *ssa.Store:
 					a, ok := x.Addr.(*ssa.Alloc)
-					if !ok || holds(x.Val) {
+					if !ok || mayHold(x.Val) {
 						return
 					}
 					// a store of another value into a local that can hold the source
 					if pt, ok := a.Type().(*types.Pointer); ok && types.Identical(pt.Elem(), src.val.Type()) {
 						for _, ref := range *a.Referrers() {
-							if st, ok := ref.(*ssa.Store); ok && st.Addr == ssa.Value(a) && holds(st.Val) {
+							if st, ok := ref.(*ssa.Store); ok && st.Addr == ssa.Value(a) && mayHold(st.Val) {
 								kills[in] = true
 							}
 						}
@@ -464,7 +521,27 @@ func (cx *c18Ctx) ruleR6() {
 				}
 				return false, false
 			}
-			l := kit.LiveFrom(f, src.at.Block(), atom, blocked)
+			var l *kit.Live
+			for iter := 0; iter < 4; iter++ {
+				l = kit.LiveFrom(f, src.at.Block(), atom, blocked)
+				changed := false
+				kit.Instrs(f, func(in ssa.Instruction) {
+					st, ok := in.(*ssa.Store)
+					if !ok || deadDef[st] {
+						return
+					}
+					if _, isAlloc := st.Addr.(*ssa.Alloc); !isAlloc || !mayHold(st.Val) {
+						return
+					}
+					if ssa.Instruction(st) != src.at && !l.CanReach(src.at, st, kills) {
+						deadDef[st] = true
+						changed = true
+					}
+				})
+				if !changed {
+					break
+				}
+			}
 			bad := ""
 			for _, sk := range sinks {
 				if !holds(sk.entry) {
